@@ -84,8 +84,8 @@ def P_native(P):
 def argval_canon(v):
     if isinstance(v, bool) or v is None:
         return ["c", C.canon(v)]
-    if isinstance(v, int):
-        return ["i", v]
+    if isinstance(v, (int, C.long_type)):
+        return ["i", int(v)]
     if isinstance(v, types.CodeType):
         return ["code", v.co_name]
     if isinstance(v, C.text_type) or (PY2 and isinstance(v, str)):
